@@ -12,11 +12,14 @@
 //!   wk wkv wp wpv ix iv vf fw dw dwf dwv dwvf   see shared/c20_dispatch.rs (models NV.Util.Dispatch, NV.Util.Fill)
 //!   aw adw adwf adwx adwv adwvf   see shared/c20_async.rs (model NV.Util.AsyncFill: the async reader builders)
 //!   cvsb cvbs cvf   see shared/c20_convert.rs (model NV.Util.Convert: one record SAM -> BAM, BAM -> SAM)
+//!   cvfb cvbf cvfz cvbz   see shared/c20_convert.rs (model NV.Util.ConvertFile2: whole files from bytes, BGZF layer)
+//!   cvvb cvbv cvvl cvbl   see shared/c20_vconv.rs (model NV.Util.ConvertVariant: VCF <-> BCF records and record sections)
 //! Implementation-only oracles (the property itself, public generic builders only):
 //!   art fmt seed nrec hdr rdr      write through alignment::io::writer::Builder, read back through
 //!                                  alignment::io::reader::Builder::default() (autodetect) over reader `rdr`
 //!   acv src dst seed nrec hdr      generic reader of src piped into generic writer of dst, read back
 //!   acx src dst text refs          the same for an explicitly given data set (regression cases of repaired classes)
+//!   crx seed nrec cls | crx t text refs   rich data sets through CRAM, all five conversions: see shared/c20_cram.rs
 //!   vrt / vcv                      the variant twins
 //!   aas / vas                      async builders against the sync ones
 
@@ -28,12 +31,16 @@ mod asyncrd;
 mod common;
 #[path = "../shared/c20_convert.rs"]
 mod convert;
+#[path = "../shared/c20_cram.rs"]
+mod cram;
 #[path = "../shared/c20_detect.rs"]
 mod detect;
 #[path = "../shared/c20_dispatch.rs"]
 mod dispatch;
 #[path = "../shared/c20_variant.rs"]
 mod variant;
+#[path = "../shared/c20_vconv.rs"]
+mod vconv;
 
 use nv::{Case, CaseWriter, Obs, Rng};
 
@@ -44,6 +51,8 @@ fn generate(rng: &mut Rng, tier: &str, w: &mut CaseWriter) {
     dispatch::generate(rng, tier, w);
     asyncrd::generate(rng, tier, w);
     convert::generate(rng, tier, w);
+    vconv::generate(rng, tier, w);
+    cram::generate(rng, tier, w);
 }
 
 fn run(c: &Case) -> Obs {
@@ -52,8 +61,10 @@ fn run(c: &Case) -> Obs {
         "art" | "atx" | "acv" | "acx" | "aas" => align::run(c),
         "vrt" | "vtx" | "vcv" | "vcx" | "vas" => variant::run(c),
         "wk" | "wkv" | "wp" | "wpv" | "ix" | "iv" | "vf" | "fw" | "dw" | "dwf" | "dwv" | "dwvf" => dispatch::run(c),
-        "cvsb" | "cvbs" | "cvf" => convert::run(c),
+        "cvsb" | "cvbs" | "cvf" | "cvfb" | "cvbf" | "cvfz" | "cvbz" => convert::run(c),
+        "cvvb" | "cvbv" | "cvvl" | "cvbl" => vconv::run(c),
         "aw" | "adw" | "adwf" | "adwx" | "adwv" | "adwvf" => asyncrd::run(c),
+        "crx" => cram::run(c),
         _ => Obs::fail("-", "harness-unknown-kind", &c.kind),
     }
 }
